@@ -3,6 +3,7 @@ package main
 import (
 	"fmt"
 	"go/ast"
+	"regexp"
 	"sort"
 	"strings"
 )
@@ -295,8 +296,31 @@ func (c *ctxT) c03HandlerView(tn string, ftype map[string]string, classOnly map[
 	return c03DedupView(out, true)
 }
 
+var c03ReLeafField = regexp.MustCompile(`\bc\.([A-Za-z0-9_]+)`)
+
+// c03ViewFields: the claim fields whose values occur in the view
+func c03ViewFields(es []c03ViewEntry) []string {
+	set := map[string]bool{}
+	for _, e := range es {
+		for _, l := range e.Leaves {
+			for _, m := range c03ReLeafField.FindAllStringSubmatch(l, -1) {
+				set[m[1]] = true
+			}
+			if strings.HasPrefix(l, ".whole") {
+				set["*"] = true
+			}
+		}
+	}
+	return sortedKeys(set)
+}
+
 func c03ViewLean(tn string, es []c03ViewEntry) string {
 	var sb strings.Builder
+	var vf []string
+	for _, f := range c03ViewFields(es) {
+		vf = append(vf, leanStr(f))
+	}
+	fmt.Fprintf(&sb, "/-- the fields whose values occur in `handlerView` (`*`: the whole claim) -/\ndef %s.viewFields : List String := %s\n\n", tn, leanList(vf))
 	fmt.Fprintf(&sb, "/-- what x/crosschain/keeper reads of a claim of this type while executing it, as VALUES (function, expression shape,\nvalues): methods of the claim followed into x/crosschain/types, chain names reduced to their address class where the code\nonly uses them as the index of `externalAddressRouter` -/\ndef %s.handlerView (c : %s) : List HEntry := [", tn, tn)
 	for i, e := range es {
 		if i > 0 {
